@@ -59,7 +59,16 @@ type Engine struct {
 
 var Registry = map[string]*Engine{}
 
-func register(e *Engine) { Registry[e.Prop] = e }
+func register(e *Engine) {
+	inner := e.Replay
+	e.Replay = func(c *Cfg, spec json.RawMessage) {
+		if replaySpecial(c, e.Prop, spec) {
+			return
+		}
+		inner(c, spec)
+	}
+	Registry[e.Prop] = e
+}
 
 func Names() []string {
 	var n []string
